@@ -32,7 +32,7 @@ TECHNIQUE = ('Lean 4 invariant proof that the emission order of the symbol pass 
              'theorems about a model of genTime (CPython strptime regular expression with backtracking, calendar check, glibc %Y) for every date; '
              'correspondence of the registration model against the real SymtableCodeGen and of Model.Time.genTime against the real genTime '
              'on well-formed, boundary and malformed stamps; JSON documents of generated modules checked '
-             'against the generator\'s declarations (keys, class, node type, status, access, units, revisions)')
+             'against the generator\'s declarations (keys, class, node type, status, access, units, revisions); theorems about the renaming transOpers (Names.trans: hyphens only, injective on names without underscores), compared with the implementation on drawn names; directed modules with hyphenated names of every kind and with declarations that repeat imported symbols')
 LEVEL_TEXT = ('Proved in Lean for any number and mix of declarations: when the symbol pass succeeds the list from which the JSON (and '
               'pysnmp) document is emitted is a duplicate-free permutation of the declared (renamed) symbol names - nothing dropped, nothing '
               'duplicated; the emission loop stores each record under its own name; the renaming itself (transOpers, compared on drawn names) touches hyphens only, position by position, and keeps names without an underscore apart (C03_trans_only_hyphens, C03_trans_injective, C03_keys_nodup; with underscores a-b and a_b share a key: C03_trans_collision_witness). Revision data: for every existing date and time of day a '
